@@ -5,8 +5,8 @@ prop("C10",
                 "logOK). Inductive invariant Inv10 = C04 invariant + coherent tables + pointwise relation RecOK between the "
                 "stored record and the provider entry of every address (assigned only to the node the record names; records "
                 "without pod / without incarnation name no node) + well-ordered log + bound live pods' addresses on the pod's "
-                "node, preserved by every move of the move set (all 22 moves of the plugin model except reload - restart, pod-IP "
-                "sync, preempt, administrator reservations included - with one failing apiserver call AND one failing provider "
+                "node, preserved by every move of the move set (all moves of the plugin model except reload - restart, pod-IP "
+                "sync, preempt, markTerminating, administrator reservations included - with one failing apiserver call AND one failing provider "
                 "call per move, any index) and lifted over all histories: assign_only_when_unassigned_or_same_node_partial (+ request-by-"
                 "request form every_assign_request_admissible_partial), unassign_before_free_or_rekey_partial, "
                 "bound_pod_ip_assigned_to_its_node_partial, stored_node_is_provider_node_partial, reachable_invariant, fact_*. "
